@@ -161,6 +161,30 @@ def search(ctx, protos, per, nsub):
                 ctx.report(name, 'corrupted frame decoded as parameters that do not encode it', dict(kind=kind),
                            dict(protocol=name, params=a, corruption=kind, position=pos, frame=g, why=r))
                 break
+            # the same on a decoder that has just decoded the intact frame (a key is held): a corrupted frame must not come back as
+            # the held key either
+            for kind, pos, g in sorted(corruptions(p, f, rng, 10 ** 6), key=lambda x: (x[0], x[1], x[2])):          # every data position
+                if kind not in ('substitute',):
+                    continue
+                ctx.count_eval(key=(name, 'held', kind, pos, tuple(g[:8]), len(g)))
+                inst = p['cls']()
+                with engine.class_guard(p['cls']):
+                    try:
+                        inst.decode(list(f), p['frequency'])
+                        got = inst.decode(list(g), p['frequency'])
+                    except IRException:
+                        continue
+                    except Exception:  # noqa
+                        continue
+                    finally:
+                        vlib.drain_workers()
+                    r = reencode_matches(p, got, g)
+                if r is True or r is None:
+                    continue
+                hits[name] = True
+                ctx.report(name, 'corrupted frame decoded as the held key', dict(kind=kind),
+                           dict(protocol=name, params=a, corruption=kind, position=pos, frame=g, why=r))
+                break
     return hits
 
 
